@@ -223,31 +223,16 @@ def run(ctx: Ctx) -> None:
         ctx.ob("R9.6", "lexer:LexerTokenStream._fill_tokbuf|continuation detection", False, msg="no test of the token before the NEWLINE: backslash-newline is not spliced", node=fm.fn, mod=lex)
 
     # ---------------------------------------------------------------- R9.7
-    ctx.rule("R9.7", "trailing-comment scan re-queues every token it does not consume", minimum=1)
+    ctx.rule("R9.7", "trailing-comment scan re-queues every token it does not consume", minimum=3)
     from .c11 import run as _  # noqa: F401
     ga = lex.func("LexerTokenStream.get_doxygen_after")
     txt = norm(ga)
+    from ..scanloop import walks
+    ws, _, _ = walks(lex)
     ok = "new_tokbuf.extend(tokbuf)" in txt and "self.tokbuf = new_tokbuf" in txt
-    # every branch of the scan either keeps the token or is the NEWLINE / comment branch
-    acfg = CFG(ga)
-    pops = [n for n in acfg.nodes if n.kind == "stmt" and isinstance(n.stmt, ast.Assign) and norm(n.stmt.value).endswith(".popleft()")]
-    keep = [n for n in acfg.nodes if n.kind == "stmt" and isinstance(n.stmt, ast.Expr) and isinstance(n.stmt.value, ast.Call) and norm(n.stmt.value.func) in ("new_tokbuf.append", "comments.append")]
-    if ok and len(pops) == 1:
-        nlt = [n for n in acfg.nodes if n.kind == "test" and n.cond is not None and norm(n.cond) == "tok.type == 'NEWLINE'"]
-        seen = set()
-        st = [s for s, lab in pops[0].succ if lab != "exc"]
-        while st:
-            x = st.pop()
-            if x.id in seen or x in keep:
-                continue
-            seen.add(x.id)
-            if x is pops[0] or x is acfg.exit or (x.kind == "test" and x.loop is not None):
-                ok = False
-                break
-            for s, lab in x.succ:
-                if lab == "exc" or (x in nlt and lab == "T"):
-                    continue
-                st.append(s)
-    else:
-        ok = False
-    ctx.ob("R9.7", "lexer:LexerTokenStream.get_doxygen_after|re-queues", ok, msg="the trailing-comment scan can lose a token that is neither a comment nor the terminating NEWLINE", node=ga, mod=lex)
+    ctx.ob("R9.7", "lexer:LexerTokenStream.get_doxygen_after|rest of the buffer re-queued", ok, msg="the trailing-comment scan does not put the unscanned rest of the buffer back", node=ga, mod=lex, nontrivial=False)
+    for cname in sorted({w.cls for w in ws if w.cls.startswith("real token")}):
+        lost = [w for w in ws if w.cls == cname and not w.kept]
+        ctx.ob("R9.7", f"lexer:LexerTokenStream.get_doxygen_after|{cname} kept", not lost,
+               msg=f"the trailing-comment scan can drop a {cname} (walk through the tests at lines {lost[0].trail if lost else ()} {lost[0].outcome + 's the loop' if lost else ''} without appending it to the new buffer)", node=ga, mod=lex,
+               detail={"walks": len([w for w in ws if w.cls == cname])})
